@@ -67,7 +67,11 @@ func vpObjNow(intp *Interpreter, tag string, depth int, maxLen int) Object {
 		}
 		return p
 	default:
-		switch vpChoose(tag+".dict", 5) {
+		switch vpChoose(tag+".dict", 7) {
+		case 5:
+			return Dict{"0": Integer(1)}
+		case 6:
+			return Dict{"x": Integer(1)}
 		case 0:
 			return Dict{}
 		case 1:
